@@ -6,7 +6,7 @@ def extra(report, fam, tier, seed):
     import os
     import fragments
 
-    fragments.run(report, 4 if tier == "quick" else 5)
+    report.guarded("fragment triples", fragments.run, report, 4 if tier == "quick" else 5)
     import whole_kernel_part as WP
     from standins import sweep as SW
 
@@ -14,7 +14,7 @@ def extra(report, fam, tier, seed):
 
     # the whole-kernel proofs use a fixed, seed-independent family so that the committed baseline applies
     fam = K.family("quick", 0, 6 if tier == "quick" else 14, assignments=K.ASSIGNMENTS_QUICK + K.systematic_assignments()[::3])
-    regress = WP.run(report, fam, tier, seed, update_baseline=bool(os.environ.get("VERIF_UPDATE_BASELINE")))
+    regress = report.guarded("whole-kernel proofs", WP.run, report, fam, tier, seed, update_baseline=bool(os.environ.get("VERIF_UPDATE_BASELINE"))) or []
     # a kernel that was proved completely on the unchanged tree and is not any more: directed
     # witness search on the reference machine with capacities 1, 2, 3
     members = {m.key: m for m in fam}
